@@ -146,6 +146,28 @@ def run(ctx, model):
         forced += 1
     cov.bump("forced-direct-from-file", forced)
 
+    # the limit configured on the terminal object (GraphicsTerminal(max_command_size=...)): the same contract for what send_command writes, including the degenerate
+    # limits 0, 1 and negative ones (rejected before anything is written) and None (= PIPE_BUF)
+    import select as _select
+    via = 0
+    for cmd0, data, layers, max_size in list(gen_cases(ctx, tup, {n: len(t) for n, t in templates.items()}))[: ctx.pick(250, 2500)]:
+        if cmd0.medium not in (None, gc.TransmissionMedium.DIRECT):
+            continue
+        if rng.random() < 0.3:
+            max_size = rng.choice([0, 0, 1, 2, -1, -4096])
+        cmd = cmd0.clone_with(data=data)
+        out = common.RecStream()
+        term = GT(out_command=out, out_display=common.RecStream(), in_response=io.BytesIO(), in_userinput=io.BytesIO(), num_tmux_layers=layers, max_command_size=max_size)
+        carrier = "via-GraphicsTerminal"
+        err = None
+        try:
+            term.send_command(cmd)
+        except ValueError:
+            err = "ValueError"
+        cases.append((cmd, data, layers, _select.PIPE_BUF if max_size is None else max_size, carrier, out.writes, err, len(out.writes)))
+        via += 1
+    cov.bump("limit-configured-on-terminal", via)
+
     reqs = []
     for cmd, data, layers, eff_max, carrier, writes, err, nsent in cases:
         reqs.append(f"cmd.send {layers} {eff_max} " + " ".join(cmdcodec.tokens(gc, cmd)))
